@@ -399,6 +399,12 @@ func buildCatalogue(seed int64, rec *hook.Recorder, want int, withSpec bool) map
 		for i, d := range gen.BadDocs {
 			add(specCall("spec-invalid", d, i%2 == 0))
 		}
+		// a rejected document whose default / example checks meet an unresolvable $ref inside a child validator: the library
+		// recovers that panic itself (continue-on-errors) and the call returns normally
+		// (ONE unresolvable reference: with several, the "First found" message names either - known finding C10/FirstFoundUnresolved)
+		const internalRecoverDoc = `{"swagger":"2.0","info":{"title":"i","version":"1"},"paths":{"/n":{"get":{"operationId":"n","responses":{"200":{"description":"ok"}}}}},"definitions":{"A":{"type":"object","properties":{"p":{"type":"object","properties":{"q":{"$ref":"#/definitions/missing"}}},"k":{"type":"string"}},"default":{"k":"v","p":{"q":1}},"example":{"p":{"q":2}}}}}`
+		add(specCall("spec-internal-recover", internalRecoverDoc, true))
+		add(specCall("spec-internal-recover", internalRecoverDoc, true))
 	}
 	return cat
 }
